@@ -1,13 +1,13 @@
 CONSTANTS
-  Ext <- AllExtensions
+  Ext <- NoExtensions
   Conv = "bundled"
-  Syntax <- SyntaxAsExt
+  Syntax <- OnlyInline
   Defects = FALSE
-  Mode = "bfs"
-  Kernel = "ref"
-  MaxBlocks = 2
-  MaxItems = 3
-  MaxComps = 3
+  Mode = "sim"
+  Kernel = "full"
+  MaxBlocks = 7
+  MaxItems = 6
+  MaxComps = 8
 INIT Init
 NEXT Next
 INVARIANTS InvConsistent InvValidRefs InvValidity Emit
